@@ -191,6 +191,12 @@ func (r *Run) pickNext(fr *frame, except *Goroutine, why string) *Goroutine {
 		return nil
 	}
 	if r.eng.cfg.SchedMode == 1 && len(rs) > 1 {
+		// a free (non-preemptive) scheduling choice: all orders are explored up to NPBound
+		// such choices per path, after that the first runnable goroutine continues
+		if r.eng.cfg.NPBound > 0 && r.npChoices >= r.eng.cfg.NPBound {
+			return rs[0]
+		}
+		r.npChoices++
 		k := r.choose(fr, len(rs), "sched")
 		return rs[k]
 	}
